@@ -22,5 +22,7 @@ def run(chk):
             progs = [f.sce_program(chk.rng, B) for B in (2, 3) for _ in range(2 if chk.tier == "quick" else 12)]
             found, dis = f.run_programs(chk, progs)
             f.report_found(chk, found, dis, prop="C03", keyprefix="funcs")
+    from props import _state
+    _state.run_param_batch(chk)      # a Parameter never carries a minibatch: init / load with a batched shape is rejected, object unchanged
     _compose.finish(chk)
     chk.trusted += ["kernel models are hand-written and tied to the code by the correspondence run"]
